@@ -1,11 +1,30 @@
 package c06
 
-import "strings"
+import (
+	"regexp"
+	"strings"
+
+	"github.com/rulego/streamsql/functions"
+)
 
 func bridgeLike(r string) bool {
 	return r == "bridge" || r == "execfn" || r == "multihead" || r == "case-paren"
 }
 func handLike(r string) bool { return r == "hand" || r == "hand-q" || r == "case-hand" }
+
+// exprLangSem: is the item (or condition) evaluated with expr-lang's nil semantics in this context?
+// Besides the bridge routes and WHERE this is the case for quoted items (bridge first) and for items the
+// hand-written parser rejects (NOT, "op - x") and that therefore fall back to the bridge.
+func exprLangSem(c *Case, ctx string) bool {
+	r := routeOf(ctx, c)
+	if bridgeLike(r) || r == "where" || r == "hand-q" {
+		return true
+	}
+	if r == "hand" && (hasOp(c.Expr, "not") || negFails(itemText(ctx, c))) {
+		return true
+	}
+	return false
+}
 
 func hasCmp(n *Node, ops ...string) bool {
 	return has(n, func(x *Node) bool {
@@ -33,13 +52,281 @@ func rewriteTree(n *Node, f func(*Node) *Node) *Node {
 
 func isExpr(c *Case) bool { return c.Mode != "fn" && c.Expr != nil }
 
+// traces evaluates the expression on every row with a full node trace.
+func traces(c *Case) []map[*Node]rv {
+	out := make([]map[*Node]rv, len(c.Rows))
+	for i, r := range c.Rows {
+		ec := &evalCtx{row: r, tr: map[*Node]rv{}}
+		ec.eval(c.Expr)
+		out[i] = ec.tr
+	}
+	return out
+}
+
+// anyNode: does some node on some row satisfy pred (given the row's trace)?
+func anyNode(c *Case, pred func(n *Node, tr map[*Node]rv) bool) bool {
+	for _, tr := range traces(c) {
+		hit := false
+		walk(c.Expr, nil, func(n, _ *Node) {
+			if !hit && pred(n, tr) {
+				hit = true
+			}
+		})
+		if hit {
+			return true
+		}
+	}
+	return false
+}
+
+// anyRowIdx is like anyNode but also gives the row index to the predicate.
+func anyRow(c *Case, pred func(i int, tr map[*Node]rv) bool) bool {
+	for i, tr := range traces(c) {
+		if pred(i, tr) {
+			return true
+		}
+	}
+	return false
+}
+
+func nullOperand(n *Node, tr map[*Node]rv) bool {
+	for _, k := range n.K {
+		if tr[k].null() {
+			return true
+		}
+	}
+	return false
+}
+
+// strictNullOp: an operation that raises an error in expr-lang when an operand is nil
+func strictNullOp(n *Node, tr map[*Node]rv) bool {
+	switch n.Op {
+	case "ari", "neg":
+		return nullOperand(n, tr)
+	case "cmp":
+		if n.V == "<" || n.V == "<=" || n.V == ">" || n.V == ">=" {
+			return nullOperand(n, tr)
+		}
+	case "and", "or", "not":
+		for _, k := range n.K {
+			if sk := strip(k); sk.Op == "col" && tr[k].null() {
+				return true
+			}
+		}
+	case "call":
+		if spec := fnByNameArity(n.V, len(n.K)); spec != nil && (spec.nullStrict || spec.ref == nil) {
+			return nullOperand(n, tr)
+		}
+	}
+	return false
+}
+
+// expectedDefinite: the observation the context is expected to give on the row is a definite value
+// (WHERE: the row passes).
+func expectedDefinite(c *Case, ctx string, v rv) bool {
+	switch ctx {
+	case "where":
+		return v.k == 'b' && v.tv == 1
+	case "when":
+		return true
+	case "arg":
+		w, ok := expectArg(c.Wrap, v)
+		return ok && !w.null()
+	}
+	return !v.null()
+}
+
+func absentCol(c *Case) bool {
+	cols := map[string]bool{}
+	walk(c.Expr, nil, func(n, _ *Node) {
+		if n.Op == "col" {
+			cols[n.V] = true
+		}
+	})
+	for _, r := range c.Rows {
+		for cn := range cols {
+			if v, ok := r[cn]; !ok || v.IsMissing() {
+				return true
+			}
+		}
+	}
+	return false
+}
+
+func nullOrAbsentCol(c *Case) bool {
+	cols := map[string]bool{}
+	walk(c.Expr, nil, func(n, _ *Node) {
+		if n.Op == "col" {
+			cols[n.V] = true
+		}
+	})
+	for _, r := range c.Rows {
+		for cn := range cols {
+			if v, ok := r[cn]; !ok || v.IsNull() {
+				return true
+			}
+		}
+	}
+	return false
+}
+
+// splitArgs splits the argument text of a call at top-level commas.
+func splitArgs(s string) []string {
+	var out []string
+	depth, inq, start := 0, false, 0
+	for i := 0; i < len(s); i++ {
+		switch ch := s[i]; {
+		case ch == '\'':
+			inq = !inq
+		case inq:
+		case ch == '(':
+			depth++
+		case ch == ')':
+			depth--
+		case ch == ',' && depth == 0:
+			out = append(out, strings.TrimSpace(s[start:i]))
+			start = i + 1
+		}
+	}
+	return append(out, strings.TrimSpace(s[start:]))
+}
+
+// oneLiteral: the text is exactly one quoted literal
+func oneLiteral(a string) bool {
+	return len(a) >= 2 && a[0] == '\'' && a[len(a)-1] == '\'' && strings.Count(a, "'") == 2
+}
+
+// quoteSpan: an argument that starts and ends with a quote but is not one literal ('x' == 'y')
+func quoteSpan(t string) bool {
+	for _, a := range execfnArgs(t) {
+		if strings.HasPrefix(a, "'") && strings.HasSuffix(a, "'") && !oneLiteral(a) {
+			return true
+		}
+		if strings.Contains(a, "(") {
+			if name, whole := headCall(a); name != "" && registered(name) && whole && quoteSpan(a) {
+				return true
+			}
+		}
+	}
+	return false
+}
+
+var exprLangCollisions = map[string]bool{"abs": true, "floor": true, "round": true, "trim": true, "upper": true, "lower": true, "replace": true, "concat": true, "ceil": true, "len": true}
+
+var negAfterOp = regexp.MustCompile(`[+\-*/<>=] -[A-Za-z(]`)
+
+// negFails: the re-joined text ("- a") is rejected by the hand-written validator: unary minus on a non-literal
+// at the start of the item or right after an operator character.
+func negFails(t string) bool {
+	if len(t) >= 2 && t[0] == '-' && !(t[1] >= '0' && t[1] <= '9') && t[1] != '.' {
+		return true
+	}
+	return negAfterOp.MatchString(t)
+}
+
+func registered(name string) bool { _, ok := functions.Get(name); return ok }
+
+// execfnArgs returns the top-level argument texts of a whole-call text "f(...)".
+func execfnArgs(t string) []string {
+	i := strings.Index(t, "(")
+	return splitArgs(t[i+1 : len(t)-1])
+}
+
+// nestedTail: following stream.parseFunctionArgs, is there a nested argument "g(..) op .." whose head is a
+// registered function but which is not exactly one call (the engine then evaluates g(..) and drops the rest)?
+func nestedTail(t string) bool {
+	for _, a := range execfnArgs(t) {
+		if oneLiteral(a) || !strings.Contains(a, "(") {
+			continue
+		}
+		name, whole := headCall(a)
+		if name == "" || !registered(name) {
+			continue // evaluated by the bridge as a whole
+		}
+		if !whole {
+			return true
+		}
+		if nestedTail(a) {
+			return true
+		}
+	}
+	return false
+}
+
+func isNumberText(s string) bool {
+	if s == "" {
+		return false
+	}
+	dot := false
+	for i, ch := range s {
+		switch {
+		case ch == '-' && i == 0:
+		case ch == '.' && !dot:
+			dot = true
+		case ch < '0' || ch > '9':
+			return false
+		}
+	}
+	return true
+}
+
+// argAsText: following stream.parseFunctionArgs, is there (at any call depth it walks) an argument without
+// parenthesis that is neither a quoted literal, a number nor a plain column reference? Such an argument is
+// evaluated by the bridge and, when that fails or when it has no operator character, passed as its source text.
+func argAsText(t string) bool {
+	for _, a := range execfnArgs(t) {
+		if strings.HasPrefix(a, "'") && strings.HasSuffix(a, "'") {
+			continue // one literal, or the quote-span shape
+		}
+		if strings.Contains(a, "(") {
+			name, whole := headCall(a)
+			if name != "" && registered(name) && whole && argAsText(a) {
+				return true
+			}
+			continue
+		}
+		if isNumberText(a) {
+			continue
+		}
+		if isIdent(a) {
+			continue // plain column: present -> value; absent -> shape execfn-absent-col
+		}
+		return true
+	}
+	return false
+}
+
+func isIdent(s string) bool {
+	if s == "" {
+		return false
+	}
+	for i, ch := range s {
+		if !(ch == '_' || (ch >= 'a' && ch <= 'z') || (ch >= 'A' && ch <= 'Z') || (i > 0 && ch >= '0' && ch <= '9')) {
+			return false
+		}
+	}
+	return true
+}
+
 func init() {
 	shapes = []shape{
 		{
 			// SELECT 5 AS r: the literal is looked up as a column name
 			name: "num-literal-item",
 			detect: func(c *Case, ctx string) bool {
-				return isExpr(c) && ctx == "select" && routeOf(ctx, c) == "simple" && strip(c.Expr).Op == "num" && c.Expr.Op == "num"
+				return isExpr(c) && ctx == "select" && c.Expr.Op == "num"
+			},
+		},
+		{
+			// an item without operator characters (NOT f, a IS NULL) is looked up as a column name
+			name: "wordy-item",
+			detect: func(c *Case, ctx string) bool {
+				if !isExpr(c) || ctx != "select" || c.Expr.Op == "col" || c.Expr.Op == "num" || c.Expr.Op == "str" {
+					return false
+				}
+				t := itemText(ctx, c)
+				up := strings.ToUpper(t)
+				return !strings.ContainsAny(t, "+-*/<>=!&|(") && !strings.Contains(up, "AND") && !strings.Contains(up, "OR") && !strings.HasPrefix(up, "CASE")
 			},
 		},
 		{
@@ -51,6 +338,22 @@ func init() {
 				}
 				r := routeOf(ctx, c)
 				return bridgeLike(r) && (hasOp(c.Expr, "case", "scase") || ctx == "when")
+			},
+		},
+		{
+			// CASE as an operand (of an operator, of another CASE, with a continuation) in the hand-written parser
+			name: "case-operand",
+			detect: func(c *Case, ctx string) bool {
+				if !isExpr(c) || !handLike(routeOf(ctx, c)) {
+					return false
+				}
+				nested := false
+				walk(c.Expr, nil, func(n, p *Node) {
+					if (n.Op == "case" || n.Op == "scase") && (p != nil || ctx == "when") {
+						nested = true
+					}
+				})
+				return nested
 			},
 		},
 		{
@@ -89,6 +392,247 @@ func init() {
 				return isExpr(c) && ctx == "where" && hasOp(c.Expr, "not")
 			},
 		},
+		{
+			// NOT is unknown to the hand-written parser; inside CASE there is no fallback
+			name: "not-hand",
+			detect: func(c *Case, ctx string) bool {
+				if !isExpr(c) || !hasOp(c.Expr, "not") {
+					return false
+				}
+				r := routeOf(ctx, c)
+				// lower-case not: the failed hand-written parse falls back to expr-lang, except inside CASE, with a
+				// quote, or when the text contains a "." (taken for a nested field path: no fallback)
+				return r == "case-hand" || (handLike(r) && (!c.Lower || r == "hand-q" || strings.Contains(itemText(ctx, c), ".")))
+			},
+		},
+		{
+			// IS [NOT] NULL inside a SELECT item outside CASE
+			name: "isnull-item",
+			detect: func(c *Case, ctx string) bool {
+				if !isExpr(c) || ctx == "where" || !hasOp(c.Expr, "isnull", "notnull") {
+					return false
+				}
+				return routeOf(ctx, c) != "case-hand"
+			},
+		},
+		{
+			// an absent column is an error in comparisons / CASE conditions / function arguments of the hand-written evaluator
+			name: "hand-absent-col",
+			detect: func(c *Case, ctx string) bool {
+				return isExpr(c) && handLike(routeOf(ctx, c)) && absentCol(c)
+			},
+		},
+		{
+			// expr-lang: nil != x is true
+			name: "neq-null",
+			detect: func(c *Case, ctx string) bool {
+				if !isExpr(c) {
+					return false
+				}
+				if !exprLangSem(c, ctx) {
+					return false
+				}
+				return anyNode(c, func(n *Node, tr map[*Node]rv) bool {
+					return n.Op == "cmp" && n.V == "!=" && nullOperand(n, tr)
+				})
+			},
+		},
+		{
+			// expr-lang: nil == nil is true
+			name: "eq-both-null",
+			detect: func(c *Case, ctx string) bool {
+				if !isExpr(c) {
+					return false
+				}
+				if !exprLangSem(c, ctx) {
+					return false
+				}
+				return anyNode(c, func(n *Node, tr map[*Node]rv) bool {
+					return n.Op == "cmp" && (n.V == "==" || n.V == "=") && tr[n.K[0]].null() && tr[n.K[1]].null()
+				})
+			},
+		},
+		{
+			// expr-lang: x == nil is false (not unknown), visible under NOT
+			name: "eq-null-under-not",
+			detect: func(c *Case, ctx string) bool {
+				if !isExpr(c) || !hasOp(c.Expr, "not") {
+					return false
+				}
+				if !exprLangSem(c, ctx) {
+					return false
+				}
+				return anyNode(c, func(n *Node, tr map[*Node]rv) bool {
+					return n.Op == "cmp" && (n.V == "==" || n.V == "=") && nullOperand(n, tr)
+				})
+			},
+		},
+		{
+			// expr-lang: arithmetic / ordering / logic on nil raises an error that voids the whole item,
+			// although SQL gives a definite value (TRUE OR UNKNOWN, coalesce(NULL + 1, x), CASE ... ELSE)
+			name: "nil-error-absorbed",
+			detect: func(c *Case, ctx string) bool {
+				if !isExpr(c) {
+					return false
+				}
+				if !exprLangSem(c, ctx) {
+					return false
+				}
+				return anyRow(c, func(i int, tr map[*Node]rv) bool {
+					if !expectedDefinite(c, ctx, tr[c.Expr]) {
+						return false
+					}
+					hit := false
+					walk(c.Expr, nil, func(n, _ *Node) {
+						if strictNullOp(n, tr) {
+							hit = true
+						}
+					})
+					return hit
+				})
+			},
+		},
+		{
+			// executeFunction/parseFunctionArgs: argument "g(x) op y" is evaluated as g(x)
+			name: "execfn-nested-tail",
+			detect: func(c *Case, ctx string) bool {
+				return isExpr(c) && routeOf(ctx, c) == "execfn" && nestedTail(itemText(ctx, c))
+			},
+		},
+		{
+			// parseFunctionArgs: an operator expression that fails to evaluate, or a wordy argument, is passed as its source text
+			name: "execfn-arg-text",
+			detect: func(c *Case, ctx string) bool {
+				return isExpr(c) && routeOf(ctx, c) == "execfn" && argAsText(itemText(ctx, c))
+			},
+		},
+		{
+			// parseFunctionArgs: an argument that begins and ends with a quote is taken as one literal
+			name: "execfn-quote-span",
+			detect: func(c *Case, ctx string) bool {
+				return isExpr(c) && routeOf(ctx, c) == "execfn" && quoteSpan(itemText(ctx, c))
+			},
+		},
+		{
+			// after an evaluation error the bridge retries with expr.Eval, where expr-lang's own abs/round/floor/... win
+			name: "fallback-builtin",
+			detect: func(c *Case, ctx string) bool {
+				if !isExpr(c) || ctx == "where" || !bridgeLike(routeOf(ctx, c)) {
+					return false
+				}
+				wrapName, _, _ := strings.Cut(c.Wrap, ":")
+				coll := ctx == "arg" && exprLangCollisions[wrapName]
+				walk(c.Expr, nil, func(n, _ *Node) {
+					if n.Op == "call" && exprLangCollisions[n.V] {
+						coll = true
+					}
+				})
+				if !coll {
+					return false
+				}
+				return anyNode(c, strictNullOp)
+			},
+		},
+		{
+			// hand-written compareValues: text that looks numeric is compared as a number (error against other text)
+			name: "numeric-text-compare",
+			detect: func(c *Case, ctx string) bool {
+				if !isExpr(c) || !handLike(routeOf(ctx, c)) {
+					return false
+				}
+				numeric := func(v rv) bool { return v.k == 's' && isNumberText(strings.TrimSpace(v.s)) }
+				return anyNode(c, func(n *Node, tr map[*Node]rv) bool {
+					if n.Op == "cmp" && (numeric(tr[n.K[0]]) || numeric(tr[n.K[1]])) {
+						return true
+					}
+					if n.Op == "scase" {
+						for i := 0; i < len(n.K); i++ {
+							if (i == 0 || i%2 == 1) && numeric(tr[n.K[i]]) {
+								return true
+							}
+						}
+					}
+					return false
+				})
+			},
+		},
+		{
+			// the SELECT-item re-joiner writes "x > - a"; the hand-written validator rejects "consecutive operators";
+			// no fallback inside CASE or when the text contains a "."
+			name: "neg-after-op",
+			detect: func(c *Case, ctx string) bool {
+				if !isExpr(c) {
+					return false
+				}
+				r := routeOf(ctx, c)
+				t := itemText(ctx, c)
+				if !(r == "case-hand" || (handLike(r) && strings.Contains(t, "."))) {
+					return false
+				}
+				return negFails(t)
+			},
+		},
+		{
+			// hand-written evaluator: a NULL produced by an inner arithmetic node is not flagged NULL for the outer one
+			name: "hand-nested-null-arith",
+			detect: func(c *Case, ctx string) bool {
+				if !isExpr(c) || !handLike(routeOf(ctx, c)) {
+					return false
+				}
+				return anyNode(c, func(n *Node, tr map[*Node]rv) bool {
+					if n.Op != "ari" && n.Op != "neg" {
+						return false
+					}
+					for _, k := range n.K {
+						if sk := strip(k); (sk.Op == "ari" || sk.Op == "neg") && tr[k].null() {
+							return true
+						}
+					}
+					return false
+				})
+			},
+		},
+		{
+			// a parenthesis inside a text literal is counted by the hand-written validator ("mismatched parentheses")
+			// and by the routing heuristics
+			name: "paren-in-literal",
+			detect: func(c *Case, ctx string) bool {
+				if !isExpr(c) || ctx == "where" {
+					return false
+				}
+				return has(c.Expr, func(n *Node) bool { return n.Op == "str" && strings.ContainsAny(n.V, "()") })
+			},
+		},
+		{
+			// simple CASE: NULL subject matches a NULL WHEN value
+			name: "scase-null-match",
+			detect: func(c *Case, ctx string) bool {
+				if !isExpr(c) || !handLike(routeOf(ctx, c)) {
+					return false
+				}
+				return anyNode(c, func(n *Node, tr map[*Node]rv) bool {
+					if n.Op != "scase" || !tr[n.K[0]].null() {
+						return false
+					}
+					m := len(n.K)
+					if n.E {
+						m--
+					}
+					for i := 1; i+1 < m; i += 2 {
+						if tr[n.K[i]].null() {
+							return true
+						}
+					}
+					return false
+				})
+			},
+		},
+		{
+			// parseFunctionArgs: an absent column is passed as its name
+			name: "execfn-absent-col",
+			detect: func(c *Case, ctx string) bool {
+				return isExpr(c) && routeOf(ctx, c) == "execfn" && absentCol(c)
+			},
+		},
 	}
-	_ = strings.Contains
 }
